@@ -198,7 +198,7 @@ def step (st : St) (j : Json) : St × List String :=
                             signerOK := (jArr j "signer").map (fun b => b.getBool?.toOption.getD false) }
     let decode := decoderOf (buildDecodeTable envJ maps (jArr j "decode"))
     let sub := (jArr j "sub").map parseMapping
-    let line := match validate cfg (reOf st.re) decode st.pd env sub with
+    let line := match validate cfg (reOf (st.re ++ (jArr j "re").filterMap parseRe)) decode st.pd env sub with
       | .ok m => "validate ok " ++ showAssoc (m.map fun (k, c) => (k, c.name))
       | .err e => "validate err:" ++ e
       | .panic s => "validate panic:" ++ s
